@@ -110,7 +110,12 @@ def prepare(ch):
             # an awaitable aggregation over the handle (it takes what the stdlib function would take from a shared iterator)
             gt = Gen(ch, cfg, "t%d" % len(ops))
             gt.uid = 1000 * (len(ops) + 1)
-            ops.append(("agg", AGGS[AGG_NAMES[ch.draw(len(AGG_NAMES))]].gen(gt)))
+            aspec = AGGS[AGG_NAMES[ch.draw(len(AGG_NAMES))]].gen(gt)
+            # (only where both worlds call it item by item: sorted and the n-best gather first in the stdlib, so how far
+            # a *failing* one got differs by design)
+            if aspec.tool in ("min", "max", "reduce") and any(f is not None for f in aspec.fns) and ch.chance(1, 3):
+                aspec.p["c08_fault"] = ch.draw(3)  # its callable fails at one of its first calls
+            ops.append(("agg", aspec))
             continue
         if kind == 0:
             gt = Gen(ch, cfg, "t%d" % len(ops))
@@ -337,6 +342,8 @@ def run_block(prep, st, mode, pos, interrupts):
                 spec = op[1]
                 w = World(sim, own_log=True)
                 fns = [make_async_fn(w, p).obj if p is not None else None for p in spec.fns]
+                if spec.p.get("c08_fault") is not None:
+                    w.set_fault([p.name for p in spec.fns if p is not None][0], spec.p["c08_fault"], TypeError("prepared"))
                 app = {"op": i, "tool": "agg:" + spec.tool, "items": [], "end": None}
                 res["apps"].append(app)
                 try:
@@ -466,6 +473,8 @@ def reference(prep, upto_apps):
                 spec = op[1]
                 w = World()
                 fns = [make_ref_fn(w, p).obj if p is not None else None for p in spec.fns]
+                if spec.p.get("c08_fault") is not None:
+                    w.set_fault([p.name for p in spec.fns if p is not None][0], spec.p["c08_fault"], TypeError("prepared"))
                 app = {"op": i, "tool": "agg:" + spec.tool, "items": [], "end": None}
                 apps.append(app)
                 try:
